@@ -38,9 +38,18 @@ Proof. exact history_table. Qed.
    lookups, also of the same path) get the same answer for a request the table decides (det). *)
 Theorem C32_stateless :
   forall h h' m p, Permutation (regs h) (regs h') ->
-    det (cands (regs h) (upper m) (split (norm p))) (split (norm p)) = true ->
+    det (cands (regs h) (upper m) (split (norm_path p))) (split (norm_path p)) = true ->
     exists o, run [] (h ++ [Look m p]) = run [] h ++ [o] /\ run [] (h' ++ [Look m p]) = run [] h' ++ [o].
 Proof. exact stateless. Qed.
+
+(* The empty path (request line "GET http://host HTTP/1.1") is the root path since the repair;
+   before it every route of the method was a candidate and the answer depended on the order. *)
+Theorem C32_empty_path_is_root : forall T m, find_route T m [] = find_route T m [SLASH].
+Proof. exact empty_is_root. Qed.
+
+Theorem C32_old_refuted :
+  exists T T' m, Permutation T T' /\ find_route_old T' m [] <> find_route_old T m [].
+Proof. exact old_refuted. Qed.
 
 (* Fewer variables are preferred: unless a candidate is spelled exactly like the path, the chosen
    route has no more "{{" variables than any other candidate (any order, ambiguous or not). *)
@@ -55,13 +64,14 @@ Definition s_var : str := [47;116;47;123;123;110;125;125].              (* "/t/{
 Definition s_var2 : str := [47;123;123;97;125;125;47;123;123;110;125;125]. (* "/{{a}}/{{n}}" *)
 Example C32_nonvacuous :
   let T := [mkRoute s_var2 sGET; mkRoute s_var sGET; mkRoute s_sql ANY] in
-  let ps := split (norm s_sql) in
+  let ps := split (norm_path s_sql) in
   length (cands T sGET ps) = 3%nat /\ det (cands T sGET ps) ps = true /\
   find_route T sGET s_sql = Found (mkRoute s_sql ANY) /\
   find_route (rev T) sGET s_sql = Found (mkRoute s_sql ANY) /\
   (* two variable routes only: the one with fewer variables *)
   find_route [mkRoute s_var2 sGET; mkRoute s_var sGET] sGET s_sql = Found (mkRoute s_var sGET) /\
   existsb (exact ps) (cands T sGET ps) = false /\
+  find_route [mkRoute s_var sGET; mkRoute s_sql ANY] sGET [] = NotFound /\
   (* history: the same path looked up before and after the more specific route is registered *)
   run [] [Reg (mkRoute s_var sGET); Look sGET s_sql; Reg (mkRoute s_sql ANY); Look sGET s_sql]
     = [Found (mkRoute s_var sGET); Found (mkRoute s_sql ANY)].
